@@ -166,7 +166,7 @@ Alph(S, c, f) ==
       [] f = "ord"    -> {"ORDERED", "UNORDERED", "NONE"}
       [] f = "hops"   -> {<<>>, <<0>>, <<1>>, <<2>>, <<0, 1>>, <<-1>>}
       [] f \in {"port", "cpport"} -> {"mock", "mock2", "nowhere", ""}
-      [] f \in {"chver", "cpver"} -> {"", "mock-version", "v2"}
+      [] f \in {"chver", "cpver"} -> {"", "mock-version", "v2", "neg:", "neg:v3", "v3"}
       [] f \in {"ph", "p"} -> AllHeights(S, c)
 
 MutFields(a) == (DOMAIN a) \ {"a", "c", "dt"}
